@@ -196,6 +196,44 @@ func checkC11(e *Engine, r *Report) {
 				r.Check(ok, key, e.Pos(cs.Call.Pos()), why, "a state-changing staking call can act on stake/rewards that do not belong to the immediate caller: "+why)
 				continue
 			}
+			// inside a function literal of an executor's Execute that is handed to a helper call (`run(env, func() error { return
+			// e.delegate(ctx, delegator, …) })`): the delegator is a captured variable of Execute and the guards must dominate the
+			// call that receives the literal
+			if p := fn.Parent(); p != nil && p.Parent() == nil && p.Name() == "Execute" && len(p.Params) == 5 {
+				var mc *ssa.MakeClosure
+				allInstrs(p, false, func(_ *ssa.Function, _ *ssa.BasicBlock, in ssa.Instruction) {
+					if m, isMC := in.(*ssa.MakeClosure); isMC && m.Fn == ssa.Value(fn) {
+						mc = m
+					}
+				})
+				var anchor ssa.CallInstruction
+				if mc != nil && mc.Referrers() != nil {
+					for _, rr := range *mc.Referrers() {
+						if ci, isCI := rr.(ssa.CallInstruction); isCI {
+							anchor = ci
+						}
+					}
+				}
+				bound := func(v ssa.Value) ssa.Value {
+					v = strip(v)
+					if u, isU := v.(*ssa.UnOp); isU && u.Op == token.MUL {
+						v = u.X
+					}
+					if fv, isFV := v.(*ssa.FreeVar); isFV && mc != nil {
+						for i, x := range fn.FreeVars {
+							if x == fv && i < len(mc.Bindings) {
+								return mc.Bindings[i]
+							}
+						}
+					}
+					return nil
+				}
+				if b := bound(arg); anchor != nil && b != nil {
+					ok, why := delegatorOK(p, anchor, b)
+					r.Check(ok, key, e.Pos(cs.Call.Pos()), why+" (captured by the function literal handed to "+calleeName(anchor)+")", "a state-changing staking call can act on stake/rewards that do not belong to the immediate caller: "+why)
+					continue
+				}
+			}
 			// inside a helper: pass-through of the helper's own delegator parameter
 			fk := ""
 			if rn := recvNamedOfSig(fn.Signature); rn != nil {
@@ -290,13 +328,65 @@ func checkC11(e *Engine, r *Report) {
 			autos := callsTo(fn, false, specAuto)
 			helpers := callsIn(fn, false, func(c ssa.CallInstruction) bool { _, ok := stakingHelpers[helperKey(c)]; return ok })
 			key := "event→log › " + x.Name()
+			// second form: the bracket `count → action() → autoEmit` lives in a helper that receives the mutation as a function
+			// literal: `e.contract.execThenEmitEvents(env, delegator, func() error { return e.delegate(ctx, delegator, …) })`
+			delegOf := func(c ssa.CallInstruction) ssa.Value { return argOf(c, 2) }
+			outer := fn
+			var site ssa.CallInstruction
+			if len(autos) == 0 {
+				for _, bc := range callsIn(fn, false, func(c ssa.CallInstruction) bool {
+					h := c.Common().StaticCallee()
+					return h != nil && h.Blocks != nil && pkgPathOf(h) == pkgCpcKeeper && len(callsTo(h, false, specAuto)) == 1
+				}) {
+					h := bc.Common().StaticCallee()
+					// the function-typed parameter and the literal bound to it
+					for pi, p := range h.Params {
+						if _, isSig := p.Type().Underlying().(*types.Signature); !isSig || pi >= len(bc.Common().Args) {
+							continue
+						}
+						mc, isMC := bc.Common().Args[pi].(*ssa.MakeClosure)
+						if !isMC {
+							continue
+						}
+						lit := mc.Fn.(*ssa.Function)
+						if len(callsIn(lit, false, func(c ssa.CallInstruction) bool { _, ok := stakingHelpers[helperKey(c)]; return ok })) == 0 {
+							continue
+						}
+						dyn := callsIn(h, false, func(c ssa.CallInstruction) bool { return c.Common().Value == ssa.Value(p) })
+						if len(dyn) == 0 {
+							continue
+						}
+						site, fn, autos, helpers = bc, h, callsTo(h, false, specAuto), dyn
+						// the delegator handed to autoEmit inside the helper is a parameter of the helper: judge the actual argument
+						delegOf = func(c ssa.CallInstruction) ssa.Value {
+							if dp, isP := resolveLocal(argOf(c, 2)).(*ssa.Parameter); isP && dp.Parent() == h {
+								if k := paramIndex(dp); k >= 0 && k < len(bc.Common().Args) {
+									return bc.Common().Args[k]
+								}
+							}
+							return argOf(c, 2)
+						}
+					}
+				}
+			}
 			if len(autos) != 1 || len(helpers) == 0 {
-				r.Bad(key, e.Pos(fn.Pos()), "the executor does not contain exactly one autoEmitEventsFromSdkEvents call and at least one effect helper call")
+				r.Bad(key, e.Pos(outer.Pos()), "the executor does not contain exactly one autoEmitEventsFromSdkEvents call and at least one effect helper call")
 				continue
 			}
 			au := autos[0]
 			ok := true
 			why := ""
+			if site != nil {
+				// the executor itself: every success return passes the bracket call and propagates its error
+				for _, ret := range successReturns(outer) {
+					if !passesThrough(outer, ret, site) {
+						ok, why = false, "a success return of the executor does not pass the helper that brackets the mutation with the log emission"
+					}
+				}
+				if !errorPropagated(outer, site, nil) {
+					ok, why = false, "the error of the bracketing helper is not returned"
+				}
+			}
 			// count taken before every mutation
 			cnt := sliceFrom(argOf(au, 1))
 			var gets []*ssa.Call
@@ -331,8 +421,8 @@ func checkC11(e *Engine, r *Report) {
 				ok, why = false, "the error of autoEmitEventsFromSdkEvents is not returned"
 			}
 			// delegator handed to autoEmit is the acting delegator
-			dsl := sliceFrom(argOf(au, 2))
-			if !(dsl.Has(func(v ssa.Value) bool { return isCallerAddress(v, fn) }) || msgDelegatorAlloc(dsl) != nil) || dsl.Has(func(v ssa.Value) bool { _, ok := isIpsElem(v); return ok }) {
+			dsl := sliceFrom(delegOf(au))
+			if !(dsl.Has(func(v ssa.Value) bool { return isCallerAddress(v, outer) }) || msgDelegatorAlloc(dsl) != nil) || dsl.Has(func(v ssa.Value) bool { _, ok := isIpsElem(v); return ok }) {
 				ok, why = false, "the delegator handed to autoEmit is not the acting delegator"
 			}
 			r.Check(ok, key, e.Pos(au.Pos()), "count → mutate → autoEmit on every success path", why)
